@@ -365,8 +365,14 @@ prop(
             (["./plugin/action/hash/normalize"], r"^(hasPattern|\(\*tokenizer\)\.(nextToken|processOpenBracket|processCloseBracket|processQuotes)|\(\*tokenNormalizer\)\.normalizeByTokenizer)$"),
             (["./cfg/substitution"], r"^\(\*(CutFilter|TrimToFilter|RegexFilter)\)\.Apply$"),
             (["./cfg/matchrule"], r"^\(\*Rule\)\.match$"),
-            (["./cfg"], r"^VerifyGroupNumbers$")],
+            (["./cfg"], r"^VerifyGroupNumbers$"),
+            (["./pipeline"], r"^\(\*processor\)\.(processEvent|doActions)$"),
+            (["./metric"], r"truncateLabels$"),
+            (["./plugin/action/decode", "./pipeline"], r"^\(\*Plugin\)\.(Do|decodeJson)$")],
     canaries=[("./plugin/action/mask", "replay/C17/zz_replay_c17_test.go", "TestVerifReplayC17Tail"), ("./plugin/input/k8s", "replay/C13/zz_replay_c13_test.go", "TestVerifReplayC13"),
+              ("./pipeline", "replay/C13/zz_timeout_wrong_action_test.go", "TestVerifTimeoutGoesToTheWaitingAction"),
+              ("./metric", "replay/C13/zz_label_utf8_test.go", "TestVerifLabelValuesFromEventContent"),
+              ("./plugin/action/decode", "replay/C13/zz_decode_prefix_test.go", "TestVerifDecodePrefixSurvivesLaterActions"),
               ("./cfg/substitution", "replay/C13/trimto_empty_cutset_test.go", "TestVerifTrimToEmptyCutset")],
     known_canaries=[("./plugin/action/mask", "replay/C17/zz_replay_c17_test.go", "TestVerifReplayC17Order")],
     claim=(
@@ -375,7 +381,9 @@ prop(
         "the join action's Do / flush (its two Panicf guards are the only exits; the single-step table is proved under C15), "
         "convert_utf8_bytes' escape-sequence rewriter (every slice of the field value, for every string), the hash action's bracket / quote tokenizer (nextToken, processQuotes, processOpen/CloseBracket and the caller's copy loop: every token lies inside the data and tokens never go backwards, by an inductive invariant over the scan), "
         "the modify action's field filters (cut, trim_to, re: results are sub-slices of the value; group indices within the submatch vector) and the match-rule comparison (prefix / suffix cuts). "
-        "Three fixes (mask tail, k8s multiline, trim_to with an empty cutset) and one open known finding (mask: nested / out-of-order groups) came out of it."
+        "The processor hands a stream time-out event only to an action that is waiting (busy at its index, or no action is busy), never to the action that merely returned non-pass last - that one would be called with a nil Root. "
+        "Metric label values built from event fields are valid UTF-8 after truncateLabels (prometheus panics otherwise). The decode action's unsafe key-name views lie inside the buffer decodeJson returns, and Do keeps exactly that buffer as event.Buf (rule for ByteToStringUnsafe views: inside the live prefix of a buffer that stays the event's). "
+        "Six fixes (mask tail, k8s multiline, trim_to with an empty cutset, time-out addressed to the wrong action, label values, decode key names) and one open known finding (mask: nested / out-of-order groups) came out of it."
     ),
     undecided=[
         "the full statement (27 plugins x every accepted configuration x every JSON event, result still well-formed JSON) lives in insane-json's mutable node graph (third-party): not applicable to contracts on file.d code",
